@@ -39,8 +39,26 @@ CENSUS = {
             'LightClientProtocol::build_prove_request_content_from_genesis'],
 }
 
+# handlers: only the guards (and argument provenance) of their state-changing calls are held to the reference ('!')
+HANDLERS = {
+    'C01': ['!SendLastStateProofProcess::execute@^LightClientProtocol::(commit_prove_state|process_last_state|get_last_state_proof)$'],
+    'C02': ['!SendBlocksProofProcess::execute_internally@^(Storage::add_fetched_header|Peers::(mark_matched_blocks_proved|update_blocks_request|mark_fetching_headers_missing|remove_fetching_header))$',
+            '!SendTransactionsProofProcess::execute_internally@^(Storage::add_fetched_tx|Peers::(mark_fetching_txs_missing|remove_fetching_transaction))$',
+            '!<SyncProtocol as CKBProtocolHandler>::received::{closure#0}@^(Peers::(add_block|clear_matched_blocks)|Storage::(filter_block|update_block_number|remove_matched_blocks|update_min_filtered_block_number))$'],
+    'C06': ['!BlockFiltersProcess::execute@^(Storage::(add_matched_blocks|update_block_number)|FilterProtocol::update_min_filtered_block_number|Peers::add_matched_blocks)$',
+            '!BlockFilterHashesProcess::execute@^Peers::(update_latest_block_filter_hashes|update_cached_block_filter_hashes)$',
+            '!BlockFilterCheckPointsProcess::execute@^Peers::add_check_points$'],
+    'C07': ['!LightClientProtocol::finalize_check_points@^(Storage::(update_check_points|update_max_check_point_index)|Peers::remove_first_n_check_points)$'],
+    'C12': ['!SendLastStateProcess::execute@^(LightClientProtocol::(update_prove_state_to_child|get_last_state_proof)|Peers::update_last_state)$',
+            '!LightClientProtocol::commit_prove_state@^(Storage::(update_last_state|rollback_to_block)|Peers::update_prove_state)$',
+            '!LightClientProtocol::update_prove_state_to_child@^(Storage::update_last_state|Peers::update_prove_state)$'],
+    'C18': ['!<TransactionRpcImpl as TransactionRpc>::send_transaction@^PendingTxs::push$'],
+}
+for _k, _v in HANDLERS.items():
+    CENSUS.setdefault(_k, []).extend(_v)
+
 
 def run(ctx, pid):
     from engine import census
     for f in CENSUS.get(pid, []):
-        census.check(ctx, pid + '.ref', f.lstrip('+~').split('@')[0])
+        census.check(ctx, pid + '.ref', f.lstrip('+~!').split('@')[0])
